@@ -173,19 +173,23 @@ def _flat(v: Any) -> list[Any]:
 
 
 def shape_case_first_when_trim(prog: dict[str, Any], default_trim: str) -> bool:
-    """A `case` whose first `when` body starts with a text run with leading whitespace and whose
-    `case` tag and first `when` tag have different effective right markers."""
+    """A `case` whose first branch (`when`, or `else` when there is no `when`) starts with a text run and
+    whose `case` tag and first branch tag have different effective right markers."""
     hit = [False]
 
     def fn(s: dict[str, Any], ctx: tuple[str, ...]) -> None:
-        if s["t"] != "case" or "liquid" in ctx or not s["whens"]:
+        if s["t"] != "case" or "liquid" in ctx:
             return
-        body = s["whens"][0][1]
+        if s["whens"]:
+            body, w = s["whens"][0][1], (s.get("wc_whens") or [["", ""]])[0][1]
+        elif s.get("else") is not None:
+            body, w = s["else"], (s.get("wc_else") or ["", ""])[1]
+        else:
+            return
         if not body or body[0]["t"] != "text":
             return
         a = (s.get("wc") or ["", ""])[1] or default_trim
-        w = (s.get("wc_whens") or [["", ""]])[0][1] or default_trim
-        if a != w:
+        if a != (w or default_trim):
             hit[0] = True
 
     interp.walk_stmts(prog["main"], fn)
@@ -451,7 +455,7 @@ class C01(Prop):
 
     def extra_evidence(self) -> dict[str, Any]:
         return {"model_calibration_ok": self.calibrated, "model_calibration_bad": self.miscalibrated,
-                "calibration_table_size_per_worker_view": 0}
+                "model_calibration_table": f"{len(TABLE)} documented examples"}
 
     def sample(self, case: Any) -> Any:
         try:
@@ -528,7 +532,7 @@ class C01(Prop):
                     wsrc = "?"
                 res.fail("model-agreement", f"model:{kind}:{detail}",
                          f"{what}: model={model!r} impl={got!r} cfg={opts} smallest={wsrc[:500]!r} "
-                         f"full={to_source(prog['main'], 0)[:700]!r} data={json.dumps(data, ensure_ascii=False)[:700]}")
+                         f"full={to_source(prog['main'], 0)[:700]!r} templates={ {k: to_source(v, 0)[:300] for k, v in prog['templates'].items()} } data={json.dumps(data, ensure_ascii=False)[:700]}")
             executed = any(t in trace for t in CONTROL)
             res.nontrivial = (len(kinds - {"text"}) >= 2 and executed and model[0] == "ok" and bool(model[1]))
 
